@@ -491,7 +491,10 @@ class Parser:
     def _concat_strings_in_constant(self, parts: list[TokenInfo]) -> ast.Constant:
         s = ast.literal_eval(parts[0].string)
         for ss in parts[1:]:
-            s += ast.literal_eval(ss.string)
+            value = ast.literal_eval(ss.string)
+            if isinstance(value, bytes) != isinstance(s, bytes):
+                self.raise_syntax_error_known_range("cannot mix bytes and nonbytes literals", parts[0], parts[-1])
+            s += value
         args = {
             "value": s,
             "lineno": parts[0].start[0],
@@ -535,6 +538,9 @@ class Parser:
 
         if ss:
             values.append(self._concat_strings_in_constant(ss))
+
+        if seen_joined and any(isinstance(v, ast.Constant) and isinstance(v.value, bytes) for v in values):
+            self.raise_syntax_error_known_range("cannot mix bytes and nonbytes literals", parts[0], parts[-1])
 
         consolidated: list[Any] = []  # ast.Constant | ast.FormattedValue
         for p in values:
